@@ -48,6 +48,7 @@ class Violation:
         self.expected = jsonable(expected)
         self.key = jsonable(key if key is not None else [sub])
         self.what = what
+        self.priority = 1   # 0 = already failed again in a fresh state (tried first by the runner)
 
     def to_dict(self):
         return {
